@@ -114,7 +114,9 @@ def run(ctx):
         res.case(case)
         if keys(sorted(xs)) != sorted(keys(xs)) or keys([min(xs)]) != [min(keys(xs))] or keys([max(xs)]) != [max(keys(xs))]:
             res.violation(case, "sorted/min/max disagree with the position order")
-    res.assumptions = ["Python's str.split/strip/splitlines are modelled by Model/Str.lean (tied by the strlib stream of C01-C04)",
+    from adapters import strlib
+    strlib.validate(ctx, res, routines=("strip", "splitlines", "split"))
+    res.assumptions = ["Python's str.split/strip/splitlines are modelled by Model/Str.lean (tied to CPython by the strlib stream of this run: all 29x29 space pairs, all pairs of line boundaries, random strings)",
                        "'string form is the original text' is an identity of the model; checked on the impl only"]
     return res
 
